@@ -1,6 +1,6 @@
 CONSTANTS NK = 4  NM = 2  MaxPasses = 3
-          Shapes <- ShapesQ  Coins <- CoinsQ  HashTypes <- HTq  Passes <- DeepPasses
+          Shapes <- ShapesQ  Coins <- CoinsD  HashTypes <- HTd  Passes <- DeepPasses
 SPECIFICATION Spec
-INVARIANTS TypeOK ValidIff SignedSane NeverValidWithFewKeys Confluence ValidDependsOnUnionOnly OutcomesCharacterized
+INVARIANTS TypeOK ValidIff SignedSane NeverValidWithFewKeys Confluence ValidDependsOnUnionOnly
 PROPERTIES Monotone ValidUntouched FrameKept UnaskedUntouched
 CHECK_DEADLOCK FALSE
